@@ -16,7 +16,7 @@ COMMON = [
 def common(P): return [(a, b, c.replace('{P}', P), d) for a, b, c, d in COMMON]
 
 PO = 'Proofs/SessionPassOut.v'
-m.write('C09', 'A session with four conforming clients always runs to completion (every schedule).', IMP.replace('Proofs.SessionExamples.', 'Proofs.SessionExamples Proofs.SessionPassOut Proofs.Wire Model.Conform Proofs.SessionConform Proofs.SessionAdmission Proofs.SessionArrivals.').replace('From Coq Require Import ZArith.', 'From Coq Require Import ZArith Permutation.'), '''(* FULL STATEMENT, PROVED (C09_conforming_sessions_complete / _every_schedule, Proofs/SessionConform.v): for every non-empty
+m.write('C09', 'A session with four conforming clients always runs to completion (every schedule).', IMP.replace('Proofs.SessionExamples.', 'Proofs.SessionExamples Proofs.SessionPassOut Proofs.Wire Model.Conform Proofs.SessionConform Proofs.SessionAdmission Proofs.SessionArrivals Proofs.SessionAbort.').replace('From Coq Require Import ZArith.', 'From Coq Require Import ZArith Permutation.'), '''(* FULL STATEMENT, PROVED (C09_conforming_sessions_complete / _every_schedule, Proofs/SessionConform.v): for every non-empty
    board list (any deals, dealers, vulnerabilities, ids), any two team names and EVERY conforming behaviour of the four clients
    (any legal auction of any length, any sequence of legal plays, every spelling of a call or card that the server parses - case,
    alerts, either card notation), every schedule of the network of threads ends with every process returned and one log record
@@ -30,17 +30,31 @@ m.write('C09', 'A session with four conforming clients always runs to completion
  ('Proofs/SessionConform.v', 'conforming_session_every_schedule', 'C09_conforming_sessions_every_schedule', 'hence EVERY schedule of every conforming session completes - no deadlock, no lost wake-up, however long a thread is delayed - in the same final state and within the same number of steps'),
  ('Proofs/SessionArrivals.v', 'conforming_session_any_arrivals_every_schedule', 'C09_any_arrivals_every_schedule', 'FULL for every request list that fills the table, any number of connections: every schedule ends, within the same number of steps, in the one final state described by arrivals_outcome - main returned, log complete, the four seated connections and their clients returned'),
  ('Proofs/SessionArrivals.v', 'conforming_session_any_order', 'C09_any_order_of_the_four', 'in particular for the four acceptable requests in any order every process finishes'),
+ ('Proofs/SessionAbort.v', 'no_infinite_schedule', 'C09_no_infinite_schedule', 'and for EVERY input, conforming or not: no schedule of the network runs for ever (every step descends in a well-founded order)'),
  (PO, 'passout_session_completes', 'C09_passed_out_sessions_complete', 'the special case proved first: ANY non-empty list of boards (arbitrary deals, dealers, vulnerabilities, ids), four clients arriving N, E, S, W, everybody passing: a schedule exists that drives the network to the state where every process has returned, with a log of one record per board'),
  (PO, 'passout_session_every_schedule', 'C09_passed_out_sessions_every_schedule', 'hence EVERY schedule of such a session completes, in the same way and within the same number of steps'),
  (E, 'ex_played_completes', 'C09_example_played_session_completes', 'non-vacuity: a two-board session taken from a real run'),
  (E, 'ex_passed_out_completes', 'C09_example_passed_out_session_completes', None),
  (E, 'ex_played_model_is_the_real_run', 'C09_example_model_is_the_real_run', None),
 ])
-m.write('C13', 'An aborted session still leaves a well-formed log of the completed boards.', IMP.replace('Proofs.SessionExamples.', 'Proofs.SessionExamples Model.Json Gen.JsonFraming Proofs.C13Cor.'), '',
+m.write('C13', 'An aborted session still leaves a well-formed log of the completed boards.', IMP.replace('Proofs.SessionExamples.', 'Proofs.SessionExamples Model.Conform Proofs.SessionConform Proofs.SessionPassOut Proofs.Wire Model.Json Gen.JsonFraming Proofs.C13Cor Proofs.SessionAbort.'), '''(* FULL STATEMENT, PROVED (Proofs/SessionAbort.v) for sessions whose clients connect in the order N, E, S, W: if the clients
+   conform on the first a boards and board a+1 goes wrong at ANY position - a call text that does not parse, a call that parses
+   but is illegal, a card text that does not parse, a card the table refuses - by whichever seat is on turn, then some schedule
+   makes the main thread raise, no schedule can avoid it, every schedule is bounded, and whenever the main thread has ended (or
+   nothing can move) the file is open ; the model records of exactly the first a boards ; close, and parses to those records.
+   An operator interrupt after k main-thread steps leaves a prefix of the records of the uninterrupted session.  Not covered: a
+   client that stops silently (then nothing is abandoned: the session blocks), and which prefix a given k yields. *)''',
  common('C13') + [
  (S, 'log_always_wellformed', 'C13_log_always_wellformed', 'for every input (conforming or not), every interrupt point and EVERY schedule: at every moment the file content is open ; record* [; close]'),
  (S, 'log_complete_when_main_ends', 'C13_abort_log_complete', 'and once the main thread has ended - returned or raised, wherever and for whatever reason - the log is complete: never opened, or open ; record* ; close. Records are single writes, so each listed board is whole'),
  ('Proofs/C13Cor.v', 'aborted_log_parses', 'C13_aborted_log_parses', 'and such a file - written with the literals regenerated from writer.py - is one JSON document whose records are exactly those'),
+ ('Proofs/SessionAbort.v', 'abandoned_session_log', 'C13_abandoned_session_log', 'FULL, symbolic and unbounded: any abort point (board, position, seat) and each kind of offending action'),
+ ('Proofs/SessionAbort.v', 'abandoned_session_bounded', 'C13_abandoned_session_bounded', 'one final state, every schedule bounded, every maximal schedule ends in it'),
+ ('Proofs/SessionAbort.v', 'interrupted_session_log', 'C13_interrupted_session_log', 'operator interrupt at any step of the main thread: the file holds a prefix of the records'),
+ ('Proofs/SessionAbort.v', 'interrupted_session_every_schedule', 'C13_interrupted_session_every_schedule', None),
+ ('Proofs/SessionAbort.v', 'abandoned_session_interrupted', 'C13_abandoned_and_interrupted', None),
+ ('Proofs/SessionAbort.v', 'no_infinite_schedule', 'C13_no_infinite_schedule', 'for EVERY state of the network (any input): no schedule runs for ever'),
+ ('Proofs/SessionAbort.v', 'every_run_extends_to_a_final_state', 'C13_every_run_ends', None),
  (S, 'every_schedule_reaches_canonical', 'C13_same_log_under_every_schedule_partial', 'which boards are listed does not depend on the schedule'),
  (E, 'ex_aborted_main_raised', 'C13_example_aborted', 'non-vacuity: a session abandoned on board 2 because of an unparseable call'),
  (E, 'ex_aborted_log_shape', 'C13_example_aborted_log', None),
